@@ -13,7 +13,7 @@ import sys
 import tempfile
 
 import gen
-from vlib import WORK, build_driver, build_repo_bins, driver_info, key_of, main, rng_for
+from vlib import WORK, Malformed, build_driver, build_repo_bins, driver_info, key_of, main, rng_for, xml_tree
 
 ID = 'C19'
 LEVEL = 'exploration'
@@ -190,6 +190,15 @@ def error_case(ctx, cli, tmp, case):
     inp = b'\xff\xfe+' if what == 'non_utf8_stdin' else None
     r = subprocess.run([cli] + args, input=inp, capture_output=True, timeout=120)
     ctx.note(key_of('error', what, case.get('opt'), case.get('value')), True, 'error_cases', 'error_' + what)
+    if r.returncode == 0 and what in ('non_utf8', 'non_utf8_stdin'):
+        # not one of the failures the property lists: a tool that decodes such input some way and converts the
+        # result has succeeded; then there has to be a document
+        ctx.tag('non_utf8_input_accepted_by_the_tool')
+        try:
+            root = xml_tree(open(outp, encoding='utf-8').read())
+        except (OSError, UnicodeDecodeError, Malformed) as e:
+            return '%s: exit status 0 but the output file is not a document (%s)' % (what, e)
+        return None if root.name == 'svg' else '%s: exit status 0, the output root is <%s>' % (what, root.name)
     if r.returncode == 0:
         return '%s: exit status 0 although the conversion failed' % what
     if r.returncode < 0:
@@ -201,13 +210,30 @@ def error_case(ctx, cli, tmp, case):
     return None
 
 
-COLORS = ['red', '#fff', 'rgb(1, 2, 3)', 'blue', '#123456', 'green', 'white']
-FONTS = ['Arial', 'Foo Bar, serif', 'monospace']
+COLORS = ['red', '#fff', 'rgb(1, 2, 3)', 'blue', '#123456', 'green', 'white', '"', "'", '<x>', 'a&b', 'url(#p) "q"']
+FONTS = ['Arial', 'Foo Bar, serif', 'monospace', '"', "serif, '", '"Courier New", monospace', '</style>']
+
+
+def big_document(rng):
+    """10 kB .. 70 kB, most of it multi-byte characters (read buffers of 4, 8, 64 kB are crossed inside characters)"""
+    target = rng.choice([9000, 17000, 33000, 70000])
+    rows = []
+    size = 0
+    while size < target:
+        w = rng.randint(3, 30)
+        lab = ''.join(rng.choice('é日ж字ü ') for _ in range(w - 2))
+        block = ['┌' + '─' * w + '┐  ' + '═' * rng.randint(0, 9), '│ ' + lab + ' │', '└' + '─' * w + '┘', '']
+        rows += block
+        size += sum(len(r.encode()) + 1 for r in block)
+    return gen.text_of(rows)
 
 
 def gen_convert(rng, circles):
     kind, rows = gen.diagram(rng, circles, allow_quotes=True, allow_braces=True, small=True)
     s = gen.text_of(rows)
+    big = rng.random() < 0.04
+    if big:
+        s = big_document(rng)
     if rng.random() < 0.15:
         s += '# Legend:\na = {fill:red}\n'
     st = {}
@@ -242,8 +268,16 @@ def gen_convert(rng, circles):
         st['scale'] = float(v)
     rng.shuffle(args) if False else None
     mode = rng.choice(['file', 'stdin', 'inline'])
-    if mode == 'inline' and ('\x00' in s):
-        mode = 'stdin'
+    if mode == 'inline' and ('\x00' in s or big):
+        mode = rng.choice(['file', 'stdin'])
+    if rng.random() < 0.2:
+        # --option=value spelling
+        joined = []
+        i = 0
+        while i < len(args):
+            joined.append(args[i] + '=' + args[i + 1])
+            i += 2
+        args = joined
     return {'kind': 'convert', 'doc': s, 'args': args, 'settings': st, 'mode': mode, 'to_file': rng.random() < 0.4}
 
 
@@ -258,7 +292,7 @@ def gen_build(rng, circles):
             continue
         names.add(name)
         kind, rows = gen.diagram(rng, circles, small=True)
-        files.append((name, gen.text_of(rows)))
+        files.append((name, gen.text_of(rows) if rng.random() > 0.04 else big_document(rng)))
     if rng.random() < 0.3:
         files.append(('README', 'no extension\n'))
     if rng.random() < 0.2 and 'old.svg' not in names:
